@@ -1,4 +1,4 @@
-package c13
+package c14
 
 import (
 	"encoding/json"
@@ -13,11 +13,11 @@ import (
 	"verif/harness/api"
 	"verif/harness/ev"
 	"verif/harness/rp"
-	"verif/harness/spec"
 	"verif/harness/zones"
 )
 
-// Several goroutines of an application handle DIFFERENT dates at the same time - among them days whose local midnight does not
+// (the JSON and text side of C13's concurrent-dates check)
+// Several goroutines of an application decode DIFFERENT dates at the same time - among them days whose local midnight does not
 // exist in the process time zone, for which the library has to search for the start of the day: every date is the one that was
 // read, parsed or constructed, whatever the other goroutines are doing (anything the library keeps between calls on that path
 // would be shared by them).
@@ -106,7 +106,7 @@ func checkConc(c concCase) *rp.Fail {
 	start := make(chan struct{})
 	for w := 0; w < c.Workers; w++ {
 		d := c.Days[w%len(c.Days)]
-		form := w / len(c.Days) % 5
+		form := w / len(c.Days) % 3
 		wg.Add(1)
 		go func() {
 			defer wg.Done()
@@ -116,48 +116,40 @@ func checkConc(c concCase) *rp.Fail {
 				}
 			}()
 			want := fmt.Sprintf("%04d-%02d-%02d", d.Y, d.M, d.D)
-			wire := make([]byte, 4)
-			spec.PutDate(wire, spec.Civil{Y: d.Y, M: d.M, D: d.D})
 			js, _ := json.Marshal(want)
 			<-start
 			for r := 0; r < c.Rounds && !failed(); r++ {
 				var got types.Date
 				var how string
-				switch (form + r) % 5 {
+				switch (form + r) % 3 {
 				case 0:
-					got, how = types.ToDate(d.Y, time.Month(d.M), d.D), "ToDate"
+					if err := json.Unmarshal(js, &got); err != nil {
+						report(rp.Failf("concurrent/json/rejected", "zone %s: decoding %s failed while other goroutines handled other dates: %v", c.Zone, js, err))
+						return
+					}
+					how = "types.Date.UnmarshalJSON"
 				case 1:
 					var err error
 					if got, err = types.ParseDate(want); err != nil {
 						report(rp.Failf("concurrent/ParseDate/rejected", "zone %s: ParseDate(%q) failed while other goroutines handled other dates: %v", c.Zone, want, err))
 						return
 					}
-					how = "ParseDate"
+					how = "types.ParseDate"
 				case 2:
-					var v types.Date
-					x, err := v.UnmarshalUT0311L0x(wire)
-					if err != nil {
-						report(rp.Failf("concurrent/decode/rejected", "zone %s: decoding the date %x failed while other goroutines handled other dates: %v", c.Zone, wire, err))
+					var card types.Card
+					doc := fmt.Sprintf(`{"card-number":8165538,"start-date":%s,"end-date":"2099-12-31","doors":{"1":1,"2":0,"3":0,"4":0}}`, js)
+					if err := json.Unmarshal([]byte(doc), &card); err != nil {
+						report(rp.Failf("concurrent/json/rejected", "zone %s: decoding a card valid from %s failed while other goroutines handled other dates: %v", c.Zone, js, err))
 						return
 					}
-					got, how = *(x.(*types.Date)), "UnmarshalUT0311L0x"
-				case 3:
-					if err := json.Unmarshal(js, &got); err != nil {
-						report(rp.Failf("concurrent/json/rejected", "zone %s: decoding %s failed while other goroutines handled other dates: %v", c.Zone, js, err))
-						return
-					}
-					how = "UnmarshalJSON"
-				case 4:
-					dt := types.DateTime(time.Date(d.Y, time.Month(d.M), d.D, 12, 30, 0, 0, loc))
-					y, m, dd := time.Time(dt).Date()
-					got, how = types.ToDate(y, m, dd), "ToDate(date of a date-time)"
+					got, how = card.From, "types.Card.UnmarshalJSON"
 				}
 				if s := api.DateText(got); s != want {
 					report(rp.Failf("concurrent/"+how+"/wrong-date", "zone %s: %s of %s gave %s while %d goroutines were handling the dates %v", c.Zone, how, want, s, c.Workers, c.Days))
 					return
 				}
-				if b, err := got.MarshalUT0311L0x(); err != nil || fmt.Sprintf("%x", b) != fmt.Sprintf("%x", wire) {
-					report(rp.Failf("concurrent/encode/wrong-digits", "zone %s: the date %s (%s) encodes as %x, %v while %d goroutines were handling the dates %v", c.Zone, want, how, b, err, c.Workers, c.Days))
+				if out, err := json.Marshal(got); err != nil || string(out) != string(js) {
+					report(rp.Failf("concurrent/encode/wrong-text", "zone %s: the date %s (%s) encodes as %s, %v while %d goroutines were handling the dates %v", c.Zone, want, how, out, err, c.Workers, c.Days))
 					return
 				}
 			}
